@@ -66,6 +66,11 @@ CLAIMED = {
             "chain-rule tangent of its primal for all real states and parameters.", "4/C08",
             "symbolic execution of the real code on z3-term jets + z3 nlsat per scalar obligation; float replay of models",
             "Bounded grid; the damper-force Jacobians on rigid-body pairings are decided per basis direction (two seeded directions in the quick tier)."),
+    "C09": ("proof", "The real System.assemble is executed with symbolic initial poses, offsets and angle0 for every force-law class on two-point "
+            "interactions and revolute joints with l_ref=None; assembling succeeds on every path and E_pot, la_c / force and h vanish at (t0, q0, u0); "
+            "the stored energy elsewhere is measured from the initial length.", "4/C09",
+            "symbolic execution of the real assembly code on z3 terms (syntactic normal form of the fraction-free scalars decides the zero clauses; z3 nlsat the rest); float replay of models",
+            "Bounded grid of pairings/axes; most zero clauses are discharged syntactically after symbolic execution (stated in the evidence)."),
 }
 
 NOT_APPLICABLE = {
